@@ -63,9 +63,12 @@ def run(ctx, mod, args, t0):
         with open(args.replay if os.path.isabs(args.replay) else os.path.join(VERIF, args.replay)) as fh:
             rep = json.load(fh)
         res = Result()
-        ok = mod.replay(ctx, rep, res)
-        if res.failures or not ok:
-            print('REPLAY: still failing: %s' % (res.failures[0]['what'] if res.failures else rep.get('kind')))
+        mod.replay(ctx, rep, res)
+        # (a replay that re-runs the whole check also meets the open known findings: they are not what is being replayed)
+        open_keys = {e['key'] for e in common.load_known(prop) if e.get('status') == 'open'}
+        still = [f for f in res.failures if f['key'] not in open_keys]
+        if still or res.diffs:
+            print('REPLAY: still failing: %s' % (still[0]['what'] if still else 'correspondence: %s' % str(res.diffs[0])[:200]))
             return 1
         print('REPLAY: no longer fails')
         return 0
